@@ -100,6 +100,12 @@ def generate(program, cname, mode='vc'):
             ob.axioms = [] if ob.kind == 'hint-pure' else axioms
             if ex.case_label:
                 ob.name = ob.name + '[%s]' % ex.case_label
+        from . import omp
+        races = omp.race_obligations(ex, cname, c.props)
+        for ob in races:
+            ob.axioms = axioms
+            ob.case = ex.case_label
+        ex.obligations += races
         rep.obligations += ex.obligations
         rep.paths += ex.paths
         rep.notes |= ex.notes
@@ -151,3 +157,30 @@ def verify(program, cnames, timeout_ms=10000, both=False, lemma_names=()):
     merge_names(obligations)
     results = solve.discharge(obligations, timeout_ms=timeout_ms, both=both)
     return reports, obligations, results, time.time() - t0
+
+
+def frame_only(program, cname, params, assigns=(), requires=()):
+    """Frame analysis of a function whose functional contract is not (yet) written: loops are cut
+    with the trivial invariant, every other obligation is ignored, only `frame` (a store through a
+    caller-owned object not listed in `assigns`) and `static-write` obligations are kept.  Sound for
+    the frame because pointer targets survive havoc (only offsets and contents are forgotten)."""
+    from .contracts import Contract
+    finfo = program.function(cname)
+    if finfo is None:
+        raise CannotBind('function %s not found' % cname)
+    c = Contract(cname + '#frame', params=params, requires=list(requires), ensures=[], assigns=list(assigns))
+    c.lang = finfo.lang
+    ex = Exec(program, 'vc')
+    ex.auto_loops = True
+    ex.check_overflow = False
+
+    def make_entry(ex):
+        st = State()
+        args = {n: program.make_value(ex, d, n, st, origin='param') for n, d in params.items()}
+        return st, args
+    ex.explore(finfo, c, make_entry)
+    keep = [o for o in ex.obligations if o.kind in ('frame', 'static-write')]
+    for o in keep:
+        o.func = cname
+        o.name = o.name.replace(cname + '#frame', cname)
+    return keep, dict(paths=ex.paths, stores_examined=getattr(ex, 'stores_seen', 0), notes=sorted(ex.notes))
